@@ -125,7 +125,7 @@ func (r *runner) historyFamilies() {
 		math.Inf(1), math.NaN(), math.MaxFloat64, -123456, 3}
 	intsA := []int64{0, 5, -5, 123, 123456, 1234567, math.MinInt64, math.MaxInt64, 255, 0x1F600}
 	n := 0
-	coq := func() bool { n++; return n%397 == 0 }
+	coq := func() bool { n++; return n%797 == 0 }
 	// numbers under numeric directives keyed by Float / Integer / Numeric / Any
 	for _, key := range []string{"Float", "Integer", "Numeric", "Any"} {
 		for _, l := range "gGeEfspdxaob" {
